@@ -32,7 +32,11 @@ type c07Real struct {
 }
 
 func c07RealKeys(g *Gen) []c07Real {
-	names := []string{"a.example", "a.example", "b.example/x", "é世", "sum.golang.org", "—"}
+	// every key NewSigner/NewVerifier accept takes part in the round-trip cases: "any set of signers".
+	// Names with ASCII control characters / DEL / C1 controls are offered too: whichever of them the
+	// package accepts as a key name must round-trip (F9: "a\x01" used to be accepted by Sign and rejected by Open).
+	names := []string{"a.example", "a.example", "b.example/x", "é世", "sum.golang.org", "—",
+		"a\x01", "\x00", "a\x1f", "a\x7f", "a\u0085b", "a\x0e", "\ufffd", "a=b"}
 	var out []c07Real
 	for _, nm := range names {
 		skey, vkey, err := note.GenerateKey(c07Reader{g.Rand}, nm)
@@ -41,6 +45,17 @@ func c07RealKeys(g *Gen) []c07Real {
 		}
 		s, err1 := note.NewSigner(skey)
 		v, err2 := note.NewVerifier(vkey)
+		if (err1 == nil) != (err2 == nil) {
+			g.Fail("NewSigner and NewVerifier disagree on the validity of a key name", skey+" "+vkey, "note.newverifier "+hx(vkey))
+			continue
+		}
+		if err1 != nil && !c07NameOK(nm) {
+			// an invalid name: Sign must refuse a signer carrying it as well
+			if _, err := note.Sign(&note.Note{Text: "x\n"}, &c07Signer{nm, 1, 'f'}); err == nil {
+				g.Fail("Sign accepts a signer name that NewSigner rejects", hx(nm))
+			}
+			continue
+		}
 		if err1 != nil || err2 != nil {
 			g.Fail("GenerateKey output rejected by NewSigner/NewVerifier", skey+" "+vkey, "note.newverifier "+hx(vkey))
 			continue
